@@ -437,6 +437,18 @@ func (g *caGen) genLeafUniverse() {
 	}
 }
 
+// bothZeroFloats: +0 and -0 of one float kind (equal for value.Equal, different bits)
+func bothZeroFloats(a, b gVal) bool {
+	if a.kind != b.kind || (a.kind != "d" && a.kind != "f") {
+		return false
+	}
+	mask := uint64(1)<<63 - 1
+	if a.kind == "f" {
+		mask = uint64(1)<<31 - 1
+	}
+	return a.bits&mask == 0 && b.bits&mask == 0
+}
+
 func (g *caGen) target() string {
 	if g.r.Intn(30) == 0 {
 		return []string{"zz", "", "*"}[g.r.Intn(3)]
@@ -560,6 +572,20 @@ func (g *caGen) step() {
 		}
 		if len(n.upd)+len(n.del) < 2 {
 			n.del = append(n.del, gPath{elem: []gElem{{name: "zz"}}})
+		}
+		if g.atomicApart {
+			// (su) Two updates of one notification that write the same leaf with the same value in two
+			// different renderings: the second is stored but withheld, and whether a subscriber's sender
+			// reads the leaf before or after it is a race inside a single GnmiUpdate call.  Make the two
+			// renderings identical, so that the race has no observable outcome.
+			for i := 1; i < len(n.upd); i++ {
+				for j := 0; j < i; j++ {
+					if strings.Join(n.upd[i].path.elems(), "\x00") == strings.Join(n.upd[j].path.elems(), "\x00") &&
+						(n.upd[i].val.token() == n.upd[j].val.token() || bothZeroFloats(n.upd[i].val, n.upd[j].val)) {
+						n.upd[i] = n.upd[j]
+					}
+				}
+			}
 		}
 		g.notiOp(n)
 	case x < 70: // atomic
